@@ -1172,6 +1172,8 @@ impl Interpreter {
                             if vm.inject_exception(self, error_msg.clone()) {
                                 self.active_vm = Some(Box::new(vm));
                             } else {
+                                // The run died: do not leave its scopes installed
+                                self.abort_active_execution();
                                 let guarded = Guarded::from_value(error_msg, &self.heap);
                                 return Err(JsError::thrown(guarded));
                             }
@@ -1226,6 +1228,8 @@ impl Interpreter {
                                 if vm.inject_exception(self, result_value.clone()) {
                                     self.active_vm = Some(Box::new(vm));
                                 } else {
+                                    // The run died: do not leave its scopes installed
+                                    self.abort_active_execution();
                                     let guarded = Guarded::from_value(result_value, &self.heap);
                                     return Err(JsError::thrown(guarded));
                                 }
